@@ -92,6 +92,15 @@ type Media struct {
 	Formats []format.Format
 }
 
+func hasPayloadType(formats []format.Format, payloadType uint8) bool {
+	for _, forma := range formats {
+		if forma.PayloadType() == payloadType {
+			return true
+		}
+	}
+	return false
+}
+
 // Unmarshal decodes the media from the SDP format.
 func (m *Media) Unmarshal(md *sdp.MediaDescription) error {
 	m.Type = MediaType(md.MediaName.Media)
@@ -134,6 +143,11 @@ func (m *Media) Unmarshal(md *sdp.MediaDescription) error {
 		format, err := format.Unmarshal(md, payloadType)
 		if err != nil {
 			return err
+		}
+
+		// a payload type identifies a format: when it is listed more than once, keep the first occurrence
+		if hasPayloadType(m.Formats, format.PayloadType()) {
+			continue
 		}
 
 		m.Formats = append(m.Formats, format)
